@@ -174,7 +174,9 @@ fn keys_family(rep: &mut Report, tier: Tier, mode: &str) {
 /// U+E000..U+FFFF / supplementary-plane pairs on which UTF-16 order and code-point order differ,
 /// and pairs that share their UTF-8 lead byte (two-, three- and four-byte forms).
 fn prefixed_keys_family(rep: &mut Report, tier: Tier, mode: &str) {
-    let tails = ["a", "b", "\u{e8}", "\u{e9}", "\u{20ac}", "\u{20ad}", "\u{d7ff}", "\u{e000}", "\u{ffff}", "\u{10000}", "\u{10001}", "\u{1d11e}", "\u{10ffff}", ""];
+    // (the empty tail and tails made of U+0000: a key against the same key followed by NULs - the
+    // smallest possible continuation, which a zero-padded packed comparison cannot tell apart)
+    let tails = ["a", "b", "\u{e8}", "\u{e9}", "\u{20ac}", "\u{20ad}", "\u{d7ff}", "\u{e000}", "\u{ffff}", "\u{10000}", "\u{10001}", "\u{1d11e}", "\u{10ffff}", "", "\u{0}", "\u{0}\u{0}", "\u{0}\u{0}\u{0}", "\u{1}"];
     let mut lens: Vec<usize> = (0..=17).collect();
     lens.extend([23, 24, 25, 31, 32, 33, 63, 64, 65]);
     if tier == Tier::Thorough {
@@ -688,6 +690,115 @@ fn respellings(s: &str) -> Vec<String> {
     out
 }
 
+/// Operation sequences (C10, C09): canonicalization must not depend on what was done to the
+/// object before - every sequence of up to 3 (4) operations out of {canonicalize, sort, push of a
+/// key, removal of the first / last entry, clone, clone_from into a fresh object} on start objects
+/// whose keys include the pairs on which sort's code-point order and the canonical UTF-16 order
+/// differ; after the sequence the object is canonicalized and must print as the canonical form of
+/// its current entries, stay queryable, and be idempotent.
+fn canon_sequences(rep: &mut Report, tier: Tier) {
+    use json_syntax::object::{Entry, Key};
+    use json_syntax::Object;
+    #[derive(Clone, Copy, Debug, PartialEq)]
+    enum Op {
+        Canon,
+        Sort,
+        Push(usize),
+        RemoveFirst,
+        RemoveLast,
+        Clone,
+        CloneFrom,
+    }
+    let keys = ["\u{e000}", "\u{10000}", "a", "\u{ffff}b", "\u{1d11e}"];
+    let mut ops = vec![Op::Canon, Op::Sort, Op::RemoveFirst, Op::RemoveLast, Op::Clone, Op::CloneFrom];
+    for k in 0..keys.len() {
+        ops.push(Op::Push(k));
+    }
+    let starts: Vec<Vec<usize>> = vec![vec![], vec![0, 1], vec![1, 0], vec![2, 1, 0], vec![3, 4, 0, 1]];
+    let max_len = tier.pick(3, 4);
+    let mut seqs: Vec<Vec<Op>> = vec![vec![]];
+    let mut frontier: Vec<Vec<Op>> = vec![vec![]];
+    for _ in 0..max_len {
+        let mut next = Vec::new();
+        for s in &frontier {
+            for &o in &ops {
+                let mut s2 = s.clone();
+                s2.push(o);
+                next.push(s2);
+            }
+        }
+        seqs.extend(next.iter().cloned());
+        frontier = next;
+    }
+    let count = seqs.len() * starts.len();
+    let t = explore::par_tally(seqs.chunks(256).map(|c| c.to_vec()).collect(), |chunk, t| {
+        for seq in chunk {
+            for start in &starts {
+                t.evals += 1;
+                let case = || json!({"kind": "canon-sequence", "start": start.iter().map(|&k| keys[k]).collect::<Vec<_>>(), "ops": seq.iter().map(|o| format!("{o:?}")).collect::<Vec<_>>()});
+                let r = explore::guard(|| {
+                    let mut o = Object::from_vec(start.iter().enumerate().map(|(i, &k)| Entry::new(Key::from(keys[k]), Value::from(i as u32))).collect());
+                    let mut n = start.len() as u32;
+                    for op in &seq {
+                        match op {
+                            Op::Canon => o.canonicalize(),
+                            Op::Sort => o.sort(),
+                            Op::Push(k) => {
+                                if !o.contains_key(keys[*k]) {
+                                    o.push(Key::from(keys[*k]), Value::from(n));
+                                    n += 1;
+                                }
+                            }
+                            Op::RemoveFirst => {
+                                if !o.is_empty() {
+                                    o.remove_at(0);
+                                }
+                            }
+                            Op::RemoveLast => {
+                                if !o.is_empty() {
+                                    o.remove_at(o.len() - 1);
+                                }
+                            }
+                            Op::Clone => o = o.clone(),
+                            Op::CloneFrom => {
+                                let mut d = Object::new();
+                                d.push(Key::from("zz"), Value::Null);
+                                d.clone_from(&o);
+                                o = d;
+                            }
+                        }
+                    }
+                    let before = bridge::from_value(&Value::Object(o.clone()));
+                    let mut v = Value::Object(o);
+                    v.canonicalize();
+                    let printed = v.compact_print().to_string();
+                    let mut twice = v.clone();
+                    twice.canonicalize();
+                    (before, printed, check_queryable(&v), twice == v)
+                });
+                match r {
+                    Ok((before, printed, queryable, idempotent)) => {
+                        let want = canon::canonical(&before);
+                        if Some(&printed) != want.as_ref() {
+                            t.violation("", format!("after the operations {seq:?} canonicalization gives {printed}, the canonical form of the entries is {want:?}"), case());
+                        }
+                        if let Err(e) = queryable {
+                            t.violation("", format!("after the operations {seq:?}: {e}"), case());
+                        }
+                        if !idempotent {
+                            t.violation("", format!("after the operations {seq:?} canonicalization is not idempotent"), case());
+                        }
+                    }
+                    Err(p) => t.violation("", format!("operations {seq:?} panicked: {p}"), case()),
+                }
+            }
+        }
+        t.outcome("operation sequences before canonicalization");
+    });
+    rep.bounds["sequences"] = json!({"operations": ops.len(), "max_length": max_len, "start_objects": starts.len(), "sequences_x_starts": count, "keys": keys.iter().map(|k| RV::Str(k.to_string()).show()).collect::<Vec<_>>()});
+    rep.absorb(t);
+}
+
 fn c10_documents(rep: &mut Report, tier: Tier) {
     // spellings of about the precision of a double: all of those that denote the same double
     // (std's correctly rounded parser decides) must canonicalise identically
@@ -886,6 +997,7 @@ fn main() {
             let mut rep = Report::new(&args, "exploration", "E-ENUM: key sets in every permutation + three exhaustive number families against R-canon");
             keys_family(&mut rep, args.tier, "C09");
             prefixed_keys_family(&mut rep, args.tier, "C09");
+            canon_sequences(&mut rep, args.tier);
             numbers_family(&mut rep, args.tier);
             pumped(&mut rep, args.tier, "C09");
             rep.tally.sample(json!({"value": "{\"\\ud800\\udc00\":1,\"\\ue000\":2}", "canonical": canon::canonical(&RV::Obj(vec![("\u{10000}".into(), RV::num("1")), ("\u{e000}".into(), RV::num("2"))]))}));
@@ -898,6 +1010,7 @@ fn main() {
             let mut rep = Report::new(&args, "exploration", "E-ENUM: equivalence classes of documents (member order, number spelling, escapes, whitespace)");
             keys_family(&mut rep, args.tier, "C10");
             prefixed_keys_family(&mut rep, args.tier, "C10");
+            canon_sequences(&mut rep, args.tier);
             c10_documents(&mut rep, args.tier);
             pumped(&mut rep, args.tier, "C10");
             rep.tally.sample(json!({"number": "1.5e2", "respellings_all_canonicalising_to": canon::canonical_number("1.5e2"), "respellings": respellings("1.5e2")}));
